@@ -83,6 +83,8 @@ def rule_lb_keogh(ctx, m):
         INFS = (('num', float('inf')), ('var', 'inf'), ('attr', ('var', 'np'), 'inf'))
         role = {}
         for s_ in walk_stmts(outer.body):
+            if s_.k == 'decl' and s_.init is not None:
+                s_ = type(s_)('assign', s_.line, target=('var', s_.name), value=s_.init, aug=None)        # a declaration with initialiser is an assignment
             if s_.k == 'assign' and s_.target[0] == 'var':
                 v = s_.value
                 callee = (dotted(v[1]) or '').split('.')[-1] if v[0] == 'call' else ''
